@@ -205,10 +205,12 @@ class GitReader:
                            "uid": int(g[10]), "gid": int(g[11]), "size": int(g[12]),
                            "skip": bool(fl & 0x40000000), "ita": bool(fl & 0x20000000)})
                 pos = m.end()
+            ru = {}
+            if b"REUC" not in data:
+                return es, ru
             p = subprocess.run(["git", "ls-files", "-z", "--resolve-undo"], cwd=d, env=env, stdout=subprocess.PIPE, stderr=subprocess.PIPE, timeout=60)
             if p.returncode != 0:
                 return None
-            ru = {}
             for rec in p.stdout.split(b"\0")[:-1]:
                 m = re.match(rb"(\d+) ([0-9a-f]+) (\d)\t(.*)$", rec, re.S)
                 ru.setdefault(m.group(4), {})[int(m.group(3))] = bytes.fromhex(m.group(2).decode())
@@ -479,8 +481,8 @@ class Dec(Suite):
     go_cmd = "c12"
     coq_imports = "From GoGit Require Import Model.IndexFile."
     quick_n = 120
-    thorough_n = 900
-    coq_chunk = 40
+    thorough_n = 600
+    coq_chunk = 25
 
     def gen(self, rng, n, tier):
         cases = git_cases(rng, max(4, n // 20))
@@ -535,6 +537,7 @@ class Dec(Suite):
             if o[4] != "none":
                 for ent in o[4][1]:
                     got_ru.setdefault(bytes.fromhex(ent[0][1:]), {}).update({int(s[0]): bytes.fromhex(s[1][1:]) for s in ent[1]})
+            got_ru = {k: v for k, v in got_ru.items() if v}     # an entry whose three modes are 0 has nothing to print
             if got_ru != gru:
                 fails[c["id"]] = "resolve-undo differs from git ls-files --resolve-undo: go-git %r / git %r" % (got_ru, gru)
         self.stats = stats
@@ -587,7 +590,7 @@ class Enc(Suite):
     go_cmd = "c12"
     coq_imports = "From GoGit Require Import Model.IndexFile."
     quick_n = 80
-    thorough_n = 1200
+    thorough_n = 800
     coq_chunk = 40
 
     def gen(self, rng, n, tier):
